@@ -1,6 +1,7 @@
 import ComposeVerif.Lemmas.ShortVolume
 import ComposeVerif.Lemmas.ShortDecode
 import ComposeVerif.Lemmas.ShortPort
+import ComposeVerif.Lemmas.ShortTransform
 import ComposeVerif.Neg.C03
 import ComposeVerif.Model.ShortTransform
 import ComposeVerif.Model.ShortDecode
@@ -404,22 +405,24 @@ theorem transformDeviceMapping_reject (a b c d : Str) (rest : Str)
   obtain ⟨x, y, hxy⟩ := h4
   simp [transformDeviceMapping, List.append_assoc, splitOn_append _ _ _ ha, splitOn_append _ _ _ hb, splitOn_append _ _ _ hc, hxy]
 
-/-- depends_on: list ≡ mapping with the default condition -/
-theorem transformDependsOn_short_eq_long (a b : String) (hab : a ≠ b) :
-    transformDependsOn (.seq [.str a, .str b])
-      = .ok (.map [(a, .map [("condition", .str "service_started"), ("required", .bool true)]),
-                   (b, .map [("condition", .str "service_started"), ("required", .bool true)])])
-    ∧ transformDependsOn (.map [(a, .map [("condition", .str "service_started"), ("required", .bool true)]),
-                   (b, .map [("condition", .str "service_started"), ("required", .bool true)])])
-      = transformDependsOn (.seq [.str a, .str b]) := by
-  have hba : ¬ b = a := fun h => hab h.symm
-  simp [transformDependsOn, dependsList, dependsMap, dependsDefaults, hasKey, Val.lookup, Val.insert, hba]
+/-- service `networks`: a list of distinct names ≡ the mapping of each name to null -/
+theorem transformServiceNetworks_short_eq_long (names : List String) (hnd : names.Nodup) :
+    transformServiceNetworks (.seq (names.map Val.str)) = .ok (.map (names.map (fun n => (n, Val.null)))) := by
+  simp [transformServiceNetworks, networksList_distinct names [] hnd (by simp)]
 
-/-- service networks: list ≡ mapping to null -/
-theorem transformServiceNetworks_short_eq_long (a b : String) (hab : a ≠ b) :
-    transformServiceNetworks (.seq [.str a, .str b]) = .ok (.map [(a, .null), (b, .null)]) := by
-  have hba : ¬ b = a := fun h => hab h.symm
-  simp [transformServiceNetworks, networksList, Val.insert, hba]
+/-- `depends_on`: a list of distinct names ≡ the mapping of each name to `{condition: service_started, required: true}`,
+and that mapping is left unchanged -/
+theorem transformDependsOn_short_eq_long (names : List String) (hnd : names.Nodup) :
+    transformDependsOn (.seq (names.map Val.str)) = .ok (.map (names.map (fun n => (n, startedRequired))))
+    ∧ transformDependsOn (.map (names.map (fun n => (n, startedRequired)))) = .ok (.map (names.map (fun n => (n, startedRequired)))) := by
+  constructor
+  · simp [transformDependsOn, dependsList_distinct names [] hnd (by simp)]
+  · simp [transformDependsOn, dependsMap_started]
+
+/-- non-vacuity -/
+example : transformDependsOn (.seq [.str "db", .str "cache"])
+    = .ok (.map [("db", startedRequired), ("cache", startedRequired)]) :=
+  (transformDependsOn_short_eq_long ["db", "cache"] (by decide)).1
 
 /-- build ssh: `["default", "id=path"]` ≡ `{default: null, id: path}` -/
 theorem transformSSH_short_eq_long (id path : Str) (hid : ∀ x ∈ id, x ≠ '=') (hd : String.ofList id ≠ "default") :
